@@ -7,6 +7,7 @@
                                               arguments, HealthFlag()/Health() inside the callback
      extra{n,k,changed,cbok,flags,health}     another callback although no new check started: a second result
      deliver{j,pos,ok}                        the late answer of check j is let out now (position pos, see HealthChecker)
+     stopped{k}                               everything given to the checker was handled, yet check k never starts
      silent{k}                                check k is over (answered / timed out, checker idle) without any callback *)
 EXTENDS HealthChecker, VTrace
 
@@ -45,8 +46,11 @@ TSilent == /\ IsEvent("silent")
            /\ Expect(FALSE, "check-without-result")
            /\ UNCHANGED vars
 
+TStopped == /\ IsEvent("stopped")
+            /\ Expect(FALSE, "checker-stopped-checking")
+            /\ UNCHANGED vars
 TDeliver == IsEvent("deliver") /\ UNCHANGED vars     \* driver note: late answer of check j let out at position pos
 
-TraceNext == TNew \/ TCheck \/ TExtra \/ TSilent \/ TDeliver
+TraceNext == TNew \/ TCheck \/ TExtra \/ TSilent \/ TStopped \/ TDeliver
 TraceSpec == TraceInit /\ [][TraceNext]_tvars
 ====
